@@ -148,7 +148,7 @@ func c20FromGo(r *core.Run, g *ssa.Global, invalid constant.Value) {
 	}
 	nSucc := 0
 	for _, ret := range core.Returns(fn) {
-		if len(ret.Results) != 2 || !core.IsNil(ret.Results[1]) {
+		if len(ret.Results) != 2 || !core.IsNil(core.RetVals(ret)[1]) {
 			continue
 		}
 		nSucc++
@@ -172,7 +172,7 @@ func c20FromGo(r *core.Run, g *ssa.Global, invalid constant.Value) {
 			}
 		}
 		retVal := false
-		if ex, ok := ret.Results[0].(*ssa.Extract); ok && ex.Tuple == lookup && ex.Index == 0 {
+		if ex, ok := core.RetVals(ret)[0].(*ssa.Extract); ok && ex.Tuple == lookup && ex.Index == 0 {
 			retVal = true
 		}
 		switch {
